@@ -567,10 +567,10 @@ def tasks(tier):
     ts.append(Task('ema.unbounded', t_ema_unbounded, extra=dict(spec_mod=SPEC), overrides=dict(ov), invariants=dict(EMA_INV), prove_timeout_ms=60000))
     ts.append(Task('wilders.unbounded', t_wilders_unbounded, extra=dict(spec_mod=SPEC), overrides=dict(ov), invariants=dict(WILDERS_INV), prove_timeout_ms=60000))
     for P in ((2, 5, 14) if tier == 'quick' else (2, 5, 14, None)):
-        ts.append(Task(f'atr.unbounded.p{P}', t_atr_unbounded(P), extra=dict(spec_mod=SPEC), overrides=dict(ov), invariants=dict(ATR_INV), prove_timeout_ms=60000))
+        ts.append(Task(f'atr.unbounded.p{P}', t_atr_unbounded(P), extra=dict(spec_mod=SPEC), overrides=dict(ov), invariants=dict(ATR_INV), prove_timeout_ms=(60000 if P is not None else 900000)))
     ts.append(Task('macd-ema.unbounded', t_macd_ema_unbounded, extra=dict(spec_mod=SPEC), overrides=dict(ov), invariants=dict(MACD_EMA_INV), prove_timeout_ms=60000))
     for P in ((2, 3) if tier == 'quick' else (2, 3, 5)):
-        ts.append(Task(f'donchian.unbounded.p{P}', t_donchian_unbounded(P), extra=dict(spec_mod=SPEC), overrides=dict(ov), prove_timeout_ms=60000))
+        ts.append(Task(f'donchian.unbounded.p{P}', t_donchian_unbounded(P), extra=dict(spec_mod=SPEC), overrides=dict(ov), prove_timeout_ms=(60000 if P < 5 else 900000)))
     for P in (2, 3):
         ts.append(Task(f'willr.unbounded.p{P}', t_willr_unbounded(P), extra=dict(spec_mod=SPEC), overrides=dict(ov), prove_timeout_ms=60000))
     for nm in sorted(PRICE_TRANSFORMS):
